@@ -14,6 +14,7 @@ import (
 	"fmt"
 	"net"
 	"net/netip"
+	"strings"
 	"testing"
 	"time"
 
@@ -43,11 +44,69 @@ type input struct {
 	Hex    string `json:"hex"`
 }
 
+// lengthLike returns the positions of m holding a 16-bit value that could be a
+// length field of this message (8 <= v <= len(m)).
+func lengthLike(m []byte) []int {
+	var ps []int
+	for i := 0; i+1 < len(m); i++ {
+		if v := int(binary.BigEndian.Uint16(m[i:])); v >= 8 && v <= len(m) {
+			ps = append(ps, i)
+		}
+	}
+	return ps
+}
+
+// shortened returns m with the length-like fields at ps reduced by d (nil if one would go negative).
+func shortened(m []byte, ps []int, d int) []byte {
+	c := bytes.Clone(m)
+	for _, p := range ps {
+		v := int(binary.BigEndian.Uint16(m[p:])) - d
+		if v < 0 {
+			return nil
+		}
+		binary.BigEndian.PutUint16(c[p:], uint16(v))
+	}
+	return c
+}
+
+// consistentTruncations: every truncation whose length-like fields (each one
+// alone, and all together) announce the truncated length, i.e. a short datagram
+// that is self-consistent. full is the untruncated datagram with the same
+// rewritten fields (what a receive buffer may still hold from before).
+func consistentTruncations(m []byte, f func(name string, full, b []byte)) {
+	ps := lengthLike(m)
+	for n := 0; n < len(m); n++ {
+		var in []int
+		for _, p := range ps {
+			if p+2 <= n {
+				in = append(in, p)
+			}
+		}
+		for _, p := range in {
+			if c := shortened(m, []int{p}, len(m)-n); c != nil {
+				f(fmt.Sprintf("trunc=%d,u16[%d]-=%d", n, p, len(m)-n), c, c[:n])
+			}
+		}
+		if len(in) > 1 {
+			if c := shortened(m, in, len(m)-n); c != nil {
+				f(fmt.Sprintf("trunc=%d,all-lengths-=%d", n, len(m)-n), c, c[:n])
+			}
+		}
+		if len(in) == 0 && len(ps) > 0 {
+			// the announcing field itself is cut off: only a stale copy can supply it
+			if c := shortened(m, ps, len(m)-n); c != nil {
+				f(fmt.Sprintf("trunc=%d,stale-lengths-=%d", n, len(m)-n), c, c[:n])
+			}
+		}
+	}
+}
+
 // variants enumerates the structure-blind mutation space of one message.
 func variants(m []byte, dense bool, f func(name string, b []byte)) {
 	for l := 0; l < len(m); l++ {
 		f(fmt.Sprintf("trunc=%d", l), m[:l])
 	}
+	consistentTruncations(m, func(name string, _, b []byte) { f(name, b) })
 	f("append-zero", append(bytes.Clone(m), 0))
 	f("append-4", append(bytes.Clone(m), 0, 0, 0, 0))
 	for i := range m {
@@ -84,6 +143,8 @@ func variants(m []byte, dense bool, f func(name string, b []byte)) {
 type seed struct {
 	name string
 	b    []byte
+	// from: source of the datagram when it differs from the target's default
+	from netip.AddrPort
 }
 
 type feeder struct {
@@ -177,6 +238,42 @@ func (fd *feeder) runListener(l *listener) {
 				fd.fail(sd.name, mut, b, "sentinel-not-answered", fmt.Sprintf("after the crafted datagram the well-formed request got %d datagrams", len(out)))
 			}
 		})
+		// receive buffers are reused: a short datagram right after a full one whose
+		// length fields announce the short length (no sentinel in between)
+		consistentTruncations(sd.b, func(mut string, full, b []byte) {
+			if fd.over() {
+				return
+			}
+			mut = "after-full:" + mut
+			fd.n++
+			fd.r.Journal(fmt.Sprintf("%s %s %s", l.name, sd.name, mut))
+			fd.r.Evals++
+			fd.r.Distinct++
+			send(full)
+			if fd.checkPanics(sd.name, mut+"(full)", full) {
+				l.sock = l.start()
+				return
+			}
+			reads := l.sock.Reads.Load()
+			send(b)
+			if fd.checkPanics(sd.name, mut, b) {
+				l.sock = l.start()
+				return
+			}
+			if l.sock.Reads.Load() != reads+1 || !l.sock.Reading.Load() {
+				fd.fail(sd.name, mut, b, "listener-not-back-in-read", "the receive loop did not return to its read")
+				l.sock = l.start()
+				return
+			}
+			out := send(l.sentinel())
+			if fd.checkPanics(sd.name, mut+"+sentinel", b) {
+				l.sock = l.start()
+				return
+			}
+			if !l.sentinelOK(out) {
+				fd.fail(sd.name, mut, b, "sentinel-not-answered", fmt.Sprintf("after the crafted datagrams the well-formed request got %d datagrams", len(out)))
+			}
+		})
 		// the unmutated seed itself
 		send(sd.b)
 		fd.checkPanics(sd.name, "none", sd.b)
@@ -193,7 +290,7 @@ func scionSeeds(w *world.World, sess *kit.Session, d *kit.FakeDaemon, dstPort ui
 	add := func(name string, f func(p *kit.Pkt)) {
 		p := base()
 		f(p)
-		ss = append(ss, seed{name, p.Bytes()})
+		ss = append(ss, seed{name: name, b: p.Bytes()})
 	}
 	add("ntp-empty-path", func(p *kit.Pkt) {})
 	add("ntp-scion-path", func(p *kit.Pkt) { p.Path = kit.PathSpec{Kind: "scion", Segs: []int{2, 2}} })
@@ -285,7 +382,7 @@ func listeners(fd *feeder) []*listener {
 			w.Settle()
 			return c
 		},
-		seeds:      []seed{{"ntp", hdr}, {"nts-level8", nts8}, {"nts-level3", nts3}},
+		seeds:      []seed{{name: "ntp", b: hdr}, {name: "nts-level8", b: nts8}, {name: "nts-level3", b: nts3}},
 		sentinel:   func() []byte { return kit.ClientHeader(w.Clock.Peek()) },
 		sentinelOK: func(out []*vnet.Datagram) bool { return len(out) == 1 },
 	})
@@ -346,7 +443,7 @@ func listeners(fd *feeder) []*listener {
 				w.Settle()
 				return c
 			},
-			seeds:      []seed{{"sync", sync}, {"followup", fu(0)}, {"followup-ds", fu(csptp.TLVFlagServerStateDS)}},
+			seeds:      []seed{{name: "sync", b: sync}, {name: "followup", b: fu(0)}, {name: "followup-ds", b: fu(csptp.TLVFlagServerStateDS)}},
 			sentinel:   func() []byte { return sync },
 			sentinelOK: func(out []*vnet.Datagram) bool { return true },
 		})
@@ -524,7 +621,7 @@ func (fd *feeder) runClient(ct *clientTarget) {
 	var seeds []seed
 	one("probe", "genuine", func(d *vnet.Datagram) ([]byte, netip.AddrPort) {
 		g, from := ct.genuine(d)
-		seeds = append(seeds, seed{"genuine", g})
+		seeds = append(seeds, seed{name: "genuine", b: g})
 		if ct.extra != nil {
 			seeds = append(seeds, ct.extra(d, g)...)
 		}
@@ -541,6 +638,9 @@ func (fd *feeder) runClient(ct *clientTarget) {
 					for _, e := range ct.extra(d, g) {
 						if e.name == sd.name {
 							cur = e.b
+							if e.from.IsValid() {
+								from = e.from
+							}
 						}
 					}
 				}
@@ -554,6 +654,9 @@ func (fd *feeder) runClient(ct *clientTarget) {
 				for _, e := range ct.extra(d, g) {
 					if e.name == sd.name {
 						cur = e.b
+						if e.from.IsValid() {
+							from = e.from
+						}
 					}
 				}
 			}
@@ -570,6 +673,31 @@ func applyMut(m []byte, mut string) []byte {
 		return append(bytes.Clone(m), 0)
 	case mut == "append-4":
 		return append(bytes.Clone(m), 0, 0, 0, 0)
+	}
+	var d int
+	if n, _ := fmt.Sscanf(mut, "trunc=%d,u16[%d]-=%d", &i, &v, &d); n == 3 {
+		if c := shortened(m, []int{v}, d); c != nil && i <= len(c) {
+			return c[:i]
+		}
+		return m
+	}
+	if n, _ := fmt.Sscanf(mut, "trunc=%d,all-lengths-=%d", &i, &d); n == 2 && strings.Contains(mut, "all-lengths") {
+		var in []int
+		for _, p := range lengthLike(m) {
+			if p+2 <= i {
+				in = append(in, p)
+			}
+		}
+		if c := shortened(m, in, d); c != nil && i <= len(c) {
+			return c[:i]
+		}
+		return m
+	}
+	if n, _ := fmt.Sscanf(mut, "trunc=%d,stale-lengths-=%d", &i, &d); n == 2 && strings.Contains(mut, "stale-lengths") {
+		if i <= len(m) {
+			return m[:i]
+		}
+		return m
 	}
 	if n, _ := fmt.Sscanf(mut, "trunc=%d", &i); n == 1 {
 		if i > len(m) {
@@ -678,7 +806,7 @@ func clientTargets(fd *feeder) []*clientTarget {
 				mk := func(name string, opts []*slayers.EndToEndOption) {
 					p := &kit.Pkt{SrcIA: pr.SCION.SrcIA, DstIA: pr.SCION.DstIA, SrcHost: kit.SrvHost, DstHost: kit.CliHost, RawPath: pr.RawPath, PathType: pr.SCION.PathType,
 						L4: "udp", SrcPort: pr.UDP.SrcPort, DstPort: pr.UDP.DstPort, Payload: pr.UDP.Payload, E2E: opts}
-					ss = append(ss, seed{name, p.Bytes()})
+					ss = append(ss, seed{name: name, b: p.Bytes()})
 				}
 				for i, body := range cmsgBodies() {
 					mk(fmt.Sprintf("tsopt-%d", i), []*slayers.EndToEndOption{{OptType: scion.OptTypeTimestamp, OptData: body}})
@@ -720,7 +848,7 @@ func clientTargets(fd *feeder) []*clientTarget {
 			b := make([]byte, csptp.MinMessageLength+n)
 			csptp.EncodeMessage(b, &csptp.Message{SdoIDMessageType: csptp.MessageTypeFollowUp, PTPVersion: csptp.PTPVersion, MessageLength: uint16(len(b)), FlagField: csptp.FlagUnicast, SequenceID: q.SequenceID, ControlField: csptp.ControlFollowUp, Timestamp: csptp.TimestampFromTime(w.Clock.Peek())})
 			csptp.EncodeResponseTLV(b[csptp.MinMessageLength:], &tlv)
-			return []seed{{"followup", b}}
+			return []seed{{name: "followup", b: b, from: netip.AddrPortFrom(kit.SrvHost, csptp.GeneralPortIP)}}
 		},
 	})
 	return cts
@@ -890,6 +1018,6 @@ func TestCheck(t *testing.T) {
 		}
 		r.Sample(input{Target: "scion-service-port", Seed: "authopt-len=27", Mut: "none"})
 		r.Sample(input{Target: "ip-listener", Seed: "nts-level3", Mut: "u16[84]=0x0"})
-		r.Extra["rule"] = "targets: IP listener, SCION listener as service port / end-host port / dispatcher, CSPTP listener on both ports, NTS-KE handler behind a real TLS session, IP client (plain, NTS), SCION client (plain, SPAO), CSPTP client, and decoders called directly. Inputs: every valid message (NTP, NTS at two pool levels, SCION with empty/SCION/one-hop/incomplete one-hop paths, IPv6, SPAO, hop-by-hop, SCMP, authenticator option with data length 0..40, timestamp option with 35 control-message bodies, unknown options; CSPTP Sync / Follow Up) x {every truncation, every byte x 7 values, every (quick: even) 16-bit position x 10 values}; NTS-KE record sequences of <=2 (3) records over 74 records, closed or kept open; extension-field chains of <=2 (3) fields x 10 tail lengths (0..40 bytes after the last field); cookie TLV and nonce/ciphertext length grammars. After every datagram to a listener a well-formed sentinel must be handled."
+		r.Extra["rule"] = "targets: IP listener, SCION listener as service port / end-host port / dispatcher, CSPTP listener on both ports, NTS-KE handler behind a real TLS session, IP client (plain, NTS), SCION client (plain, SPAO), CSPTP client, and decoders called directly. Inputs: every valid message (NTP, NTS at two pool levels, SCION with empty/SCION/one-hop/incomplete one-hop paths, IPv6, SPAO, hop-by-hop, SCMP, authenticator option with data length 0..40, timestamp option with 35 control-message bodies, unknown options; CSPTP Sync / Follow Up) x {every truncation, every truncation with each / all length-like 16-bit fields rewritten to announce the truncated length (alone, and right after the full datagram with the same fields, so that a reused receive buffer holds matching stale bytes), every byte x 7 values, every (quick: even) 16-bit position x 10 values}; NTS-KE record sequences of <=2 (3) records over 74 records, closed or kept open; extension-field chains of <=2 (3) fields x 10 tail lengths (0..40 bytes after the last field); cookie TLV and nonce/ciphertext length grammars. After every datagram to a listener a well-formed sentinel must be handled."
 	})
 }
